@@ -37,18 +37,52 @@ enum Sev {
 }
 #[derive(Clone, Debug, PartialEq)]
 enum Ans {
+    /// the stream ended with this gRPC status code
     Err(i32),
     Fd(Vec<Vec<u8>>),
     AllExt { base: String, numbers: Vec<i32> },
     List(Vec<String>),
-    /// response envelope broken (no message_response, wrong echo, ...)
+    /// an in-message ErrorResponse (the reflection protocol's own way to say NOT_FOUND)
+    InMsgErr(i32),
+    /// response without message_response
     Broken(String),
+}
+/// the envelope of a response message, as received
+#[derive(Clone, Debug, PartialEq)]
+struct Echo {
+    valid_host: String,
+    /// original_request decoded back to (host, request); None if absent
+    original: Option<(String, Q)>,
 }
 #[derive(Clone, Debug, PartialEq)]
 struct StreamObs {
     answers: Vec<Ans>,
+    /// parallel to `answers`: the envelope of every response MESSAGE (None for a status)
+    echoes: Vec<Option<Echo>>,
     panicked: bool,
     hung: bool,
+}
+impl StreamObs {
+    fn new() -> Self {
+        StreamObs { answers: vec![], echoes: vec![], panicked: false, hung: false }
+    }
+    fn status(&mut self, code: i32) {
+        self.answers.push(Ans::Err(code));
+        self.echoes.push(None);
+    }
+    fn message(&mut self, m: (Ans, Echo)) {
+        self.answers.push(m.0);
+        self.echoes.push(Some(m.1));
+    }
+}
+/// hosts of the requests: a fixed function of the position, so that a case is described by its
+/// queries alone (query i of the single-request streams, event j of the scripted stream)
+const HOSTS: &[&str] = &["h", "", "example.com:443", "h\u{e9}"];
+fn qhost(i: usize) -> &'static str {
+    HOSTS[i % HOSTS.len()]
+}
+fn shost(j: usize) -> &'static str {
+    HOSTS[(j + 1) % HOSTS.len()]
 }
 #[derive(Clone, Debug, PartialEq)]
 enum VerObs {
@@ -111,9 +145,9 @@ macro_rules! version {
             pub fn own_fds() -> FileDescriptorSet {
                 FileDescriptorSet::decode(pb::FILE_DESCRIPTOR_SET).expect("own descriptor set decodes")
             }
-            pub fn mk_req(q: &Q) -> pb::ServerReflectionRequest {
+            pub fn mk_req(q: &Q, host: &str) -> pb::ServerReflectionRequest {
                 pb::ServerReflectionRequest {
-                    host: "h".into(),
+                    host: host.into(),
                     message_request: match q {
                         Q::None => None,
                         Q::File(s) => Some(MessageRequest::FileByFilename(s.clone())),
@@ -127,16 +161,20 @@ macro_rules! version {
                     },
                 }
             }
-            fn ans_of(m: pb::ServerReflectionResponse, req: Option<&pb::ServerReflectionRequest>) -> Ans {
-                if let Some(req) = req {
-                    if m.valid_host != req.host {
-                        return Ans::Broken("valid_host is not the request host".into());
-                    }
-                    if m.original_request.as_ref() != Some(req) {
-                        return Ans::Broken("original_request is not the request".into());
-                    }
-                }
-                match m.message_response {
+            fn q_of(r: &pb::ServerReflectionRequest) -> (String, Q) {
+                let q = match &r.message_request {
+                    None => Q::None,
+                    Some(MessageRequest::FileByFilename(s)) => Q::File(s.clone()),
+                    Some(MessageRequest::FileContainingSymbol(s)) => Q::Sym(s.clone()),
+                    Some(MessageRequest::FileContainingExtension(e)) => Q::Ext(e.containing_type.clone(), e.extension_number),
+                    Some(MessageRequest::AllExtensionNumbersOfType(t)) => Q::AllExt(t.clone()),
+                    Some(MessageRequest::ListServices(c)) => Q::List(c.clone()),
+                };
+                (r.host.clone(), q)
+            }
+            fn ans_of(m: pb::ServerReflectionResponse) -> (Ans, Echo) {
+                let echo = Echo { valid_host: m.valid_host.clone(), original: m.original_request.as_ref().map(q_of) };
+                let a = match m.message_response {
                     None => Ans::Broken("no message_response".into()),
                     Some(MessageResponse::FileDescriptorResponse(r)) => Ans::Fd(r.file_descriptor_proto),
                     Some(MessageResponse::AllExtensionNumbersResponse(r)) => {
@@ -145,8 +183,9 @@ macro_rules! version {
                     Some(MessageResponse::ListServicesResponse(r)) => {
                         Ans::List(r.service.into_iter().map(|s| s.name).collect())
                     }
-                    Some(MessageResponse::ErrorResponse(e)) => Ans::Broken(format!("ErrorResponse {}", e.error_code)),
-                }
+                    Some(MessageResponse::ErrorResponse(e)) => Ans::InMsgErr(e.error_code),
+                };
+                (a, echo)
             }
 
             pub async fn run(b: Builder<'_>, queries: &[Q], script: &[Sev]) -> VerObs {
@@ -157,13 +196,13 @@ macro_rules! version {
                 let limit = std::time::Duration::from_secs(20);
                 // every query on a stream of its own, through the generated client
                 let mut per_query = vec![];
-                for q in queries {
+                for (qi, q) in queries.iter().enumerate() {
                     let mut client = pb::server_reflection_client::ServerReflectionClient::new(svc.clone());
-                    let req = mk_req(q);
-                    let mut so = StreamObs { answers: vec![], panicked: false, hung: false };
+                    let req = mk_req(q, qhost(qi));
+                    let mut so = StreamObs::new();
                     let p0 = SEND_PANICS.load(Ordering::SeqCst);
                     match client.server_reflection_info(tokio_stream::iter(vec![req.clone()])).await {
-                        Err(st) => so.answers.push(Ans::Err(st.code() as i32)),
+                        Err(st) => so.status(st.code() as i32),
                         Ok(r) => {
                             let mut s = r.into_inner();
                             loop {
@@ -172,10 +211,10 @@ macro_rules! version {
                                         so.hung = true;
                                         break;
                                     }
-                                    Ok(Ok(Some(m))) => so.answers.push(ans_of(m, Some(&req))),
+                                    Ok(Ok(Some(m))) => so.message(ans_of(m)),
                                     Ok(Ok(None)) => break,
                                     Ok(Err(st)) => {
-                                        so.answers.push(Ans::Err(st.code() as i32));
+                                        so.status(st.code() as i32);
                                         break;
                                     }
                                 }
@@ -186,7 +225,7 @@ macro_rules! version {
                     per_query.push(so);
                 }
                 // one scripted stream through a raw-payload client
-                let mut so = StreamObs { answers: vec![], panicked: false, hung: false };
+                let mut so = StreamObs::new();
                 let p0 = SEND_PANICS.load(Ordering::SeqCst);
                 {
                     let mut grpc = tonic::client::Grpc::new(svc.clone());
@@ -198,19 +237,16 @@ macro_rules! version {
                         .streaming(tonic::Request::new(stream), path, RawCodec::<pb::ServerReflectionResponse>::default())
                         .await;
                     match resp {
-                        Err(st) => so.answers.push(Ans::Err(st.code() as i32)),
+                        Err(st) => so.status(st.code() as i32),
                         Ok(r) => {
                             let mut rs = Some(r.into_inner());
                             let mut ended = false;
-                            for ev in script {
+                            for (j, ev) in script.iter().enumerate() {
                                 match ev {
                                     Sev::Req(_) | Sev::Bad => {
-                                        let (payload, req) = match ev {
-                                            Sev::Req(q) => {
-                                                let r = mk_req(q);
-                                                (r.encode_to_vec(), Some(r))
-                                            }
-                                            _ => (vec![0xff], None),
+                                        let payload = match ev {
+                                            Sev::Req(q) => mk_req(q, shost(j)).encode_to_vec(),
+                                            _ => vec![0xff],
                                         };
                                         let _ = tx.send(payload);
                                         match rs.as_mut() {
@@ -220,10 +256,10 @@ macro_rules! version {
                                                         so.hung = true;
                                                         ended = true;
                                                     }
-                                                    Ok(Ok(Some(m))) => so.answers.push(ans_of(m, req.as_ref())),
+                                                    Ok(Ok(Some(m))) => so.message(ans_of(m)),
                                                     Ok(Ok(None)) => ended = true,
                                                     Ok(Err(st)) => {
-                                                        so.answers.push(Ans::Err(st.code() as i32));
+                                                        so.status(st.code() as i32);
                                                         ended = true;
                                                     }
                                                 }
@@ -243,8 +279,11 @@ macro_rules! version {
                                     match tokio::time::timeout(limit, s.message()).await {
                                         Err(_) => so.hung = true,
                                         Ok(Ok(None)) => {}
-                                        Ok(Ok(Some(_))) => so.answers.push(Ans::Broken("message after the last request".into())),
-                                        Ok(Err(st)) => so.answers.push(Ans::Err(st.code() as i32)),
+                                        Ok(Ok(Some(m))) => {
+                                            let (_, e) = ans_of(m);
+                                            so.message((Ans::Broken("message after the last request".into()), e))
+                                        }
+                                        Ok(Err(st)) => so.status(st.code() as i32),
                                     }
                                 }
                             }
@@ -328,18 +367,84 @@ fn coq_q(q: &Q) -> String {
         Q::List(c) => format!("(ListServices {})", coq_name(c)),
     }
 }
-fn coq_sev(e: &Sev) -> String {
+fn coq_sev(j: usize, e: &Sev) -> String {
     match e {
-        Sev::Req(q) => format!("(Req {})", coq_q(q)),
+        Sev::Req(q) => format!("(Req {} {})", coq_name(shost(j)), coq_q(q)),
         Sev::Bad => "ReqErr".into(),
         Sev::Drop => "RxDrop".into(),
     }
 }
+fn coq_indexed<T>(xs: &[T], f: impl Fn(usize, &T) -> String) -> String {
+    let v: Vec<(usize, &T)> = xs.iter().enumerate().collect();
+    coq_list(&v, |(i, x)| f(*i, x))
+}
 
 // ------------------------------------------------------------------ observables
+fn fnv64(bytes: &[u8]) -> u64 {
+    let mut h: u64 = 0xcbf29ce484222325;
+    for b in bytes {
+        h ^= *b as u64;
+        h = h.wrapping_mul(0x100000001b3);
+    }
+    h
+}
+/// injective byte rendering of a request (strings are UTF-8, 0xff separates them); the model's
+/// [request_bytes]
+fn q_bytes(q: &Q) -> Vec<u8> {
+    let mut v = vec![];
+    match q {
+        Q::None => v.push(0),
+        Q::File(s) => {
+            v.push(1);
+            v.extend(s.as_bytes())
+        }
+        Q::Sym(s) => {
+            v.push(2);
+            v.extend(s.as_bytes())
+        }
+        Q::Ext(t, n) => {
+            v.push(3);
+            v.extend(t.as_bytes());
+            v.push(255);
+            v.extend((*n as u32).to_le_bytes())
+        }
+        Q::AllExt(t) => {
+            v.push(4);
+            v.extend(t.as_bytes())
+        }
+        Q::List(c) => {
+            v.push(5);
+            v.extend(c.as_bytes())
+        }
+    }
+    v
+}
+/// the envelope as received, digested (the model's [envelope_bytes] + [fnv])
+fn echo_digest(e: &Echo) -> u64 {
+    let mut v = e.valid_host.as_bytes().to_vec();
+    v.push(255);
+    match &e.original {
+        None => v.push(0),
+        Some((h, q)) => {
+            v.push(1);
+            v.extend(h.as_bytes());
+            v.push(255);
+            v.extend(q_bytes(q));
+        }
+    }
+    fnv64(&v)
+}
+/// a response message: [body, digest of (valid_host, original_request)]; a status: [0, code]
+fn answer_tr(a: &Ans, e: &Option<Echo>) -> Tr {
+    match (a, e) {
+        (Ans::Err(_), _) | (_, None) => ans_tr(a),
+        (_, Some(e)) => Tr::L(vec![ans_tr(a), Tr::n(echo_digest(e))]),
+    }
+}
 fn ans_tr(a: &Ans) -> Tr {
     match a {
         Ans::Err(c) => Tr::L(vec![Tr::n(0u8), Tr::n(*c as u32)]),
+        Ans::InMsgErr(c) => Tr::L(vec![Tr::n(8u8), Tr::n(*c as u32)]),
         Ans::Fd(v) if v.len() == 1 => match FileDescriptorProto::decode(&v[0][..]) {
             Ok(fd) => Tr::L(vec![
                 Tr::n(1u8),
@@ -361,7 +466,7 @@ fn stream_tr(s: &StreamObs) -> Tr {
     if s.hung {
         return Tr::L(vec![Tr::n(98u8)]);
     }
-    Tr::L(vec![Tr::L(s.answers.iter().map(ans_tr).collect()), Tr::n(s.panicked as u8)])
+    Tr::L(vec![Tr::L(s.answers.iter().zip(&s.echoes).map(|(a, e)| answer_tr(a, e)).collect()), Tr::n(s.panicked as u8)])
 }
 fn err_tr(msg: &str) -> Tr {
     let kinds = [
@@ -626,13 +731,123 @@ struct Notes {
     undeclared_extension_lookup_not_found: u64,
     all_extension_numbers_declared_but_empty: u64,
     all_extension_numbers_nonempty: u64,
+    all_extension_numbers_unknown_type_ok_empty: u64,
+    all_extension_numbers_unknown_type_not_found: u64,
     encoded_with_unknown_fields_returned_without_them: u64,
+    returned_bytes_checked_against_registered_bytes: u64,
+    file_name_asked_as_symbol_found: u64,
+    file_name_asked_as_symbol_not_found: u64,
+    symbol_asked_as_file_name_found: u64,
+    symbol_asked_as_file_name_not_found: u64,
+    in_message_error_responses: u64,
+    envelopes_checked: u64,
+    live_content_judged: u64,
+    enum_value_other_name_resolved_to_a_clashing_declaration: u64,
+}
+
+// ---- wire-level comparison of a returned descriptor with the registered bytes (no prost)
+fn rd_varint(b: &mut &[u8]) -> Option<u64> {
+    let mut v = 0u64;
+    for i in 0..10 {
+        let x = *b.first()?;
+        *b = &b[1..];
+        v |= ((x & 0x7f) as u64) << (7 * i);
+        if x < 0x80 {
+            return Some(v);
+        }
+    }
+    None
+}
+/// the top-level fields of a protobuf message: (number, wire type, payload)
+fn wire_fields(mut b: &[u8]) -> Option<Vec<(u64, u8, Vec<u8>)>> {
+    let mut out = vec![];
+    while !b.is_empty() {
+        let key = rd_varint(&mut b)?;
+        let (num, wt) = (key >> 3, (key & 7) as u8);
+        let payload = match wt {
+            0 => {
+                let mut p = vec![];
+                put_varint(&mut p, rd_varint(&mut b)?);
+                p
+            }
+            1 => {
+                let p = b.get(..8)?.to_vec();
+                b = &b[8..];
+                p
+            }
+            5 => {
+                let p = b.get(..4)?.to_vec();
+                b = &b[4..];
+                p
+            }
+            2 => {
+                let n = rd_varint(&mut b)? as usize;
+                let p = b.get(..n)?.to_vec();
+                b = &b[n..];
+                p
+            }
+            _ => return None,
+        };
+        out.push((num, wt, payload));
+    }
+    Some(out)
+}
+fn put_fields(fs: &[(u64, u8, Vec<u8>)]) -> Vec<u8> {
+    let mut out = vec![];
+    for (num, wt, p) in fs {
+        put_key(&mut out, *num, *wt as u64);
+        if *wt == 2 {
+            put_varint(&mut out, p.len() as u64);
+        }
+        out.extend(p);
+    }
+    out
+}
+/// field numbers the harness injects and prost-types has no slot for
+const UNKNOWN_FILE_FIELDS: &[u64] = &[1000, 1001];
+const UNKNOWN_OPTION_FIELDS: &[u64] = &[50000];
+/// A FileDescriptorProto entry up to the order of its top-level fields (and of the fields of its
+/// options), minus exactly the injected unknown fields.  Relative order of equal numbers is kept.
+fn canon_file_entry(b: &[u8]) -> Option<Vec<(u64, u8, Vec<u8>)>> {
+    let mut fs = wire_fields(b)?;
+    fs.retain(|f| !UNKNOWN_FILE_FIELDS.contains(&f.0));
+    for f in fs.iter_mut() {
+        if f.0 == 8 && f.1 == 2 {
+            let mut o = wire_fields(&f.2)?;
+            o.retain(|x| !UNKNOWN_OPTION_FIELDS.contains(&x.0));
+            o.sort_by_key(|x| x.0);
+            f.2 = put_fields(&o);
+        }
+    }
+    fs.sort_by_key(|f| f.0);
+    Some(fs)
+}
+/// Ok(true): compared and fine, Ok(false): this file was not registered in encoded form by the
+/// harness (nothing to compare with), Err: the returned bytes are not the registered ones
+fn returned_bytes_judgement(reg: &Registered, fd: &FileDescriptorProto, bytes: &[u8]) -> Result<bool, String> {
+    let cands: Vec<&Vec<u8>> = reg.raw.iter().filter(|(f, _)| f == fd).map(|(_, raw)| raw).collect();
+    if cands.is_empty() {
+        return Ok(false);
+    }
+    let got = canon_file_entry(bytes);
+    if got.is_some() && cands.iter().any(|raw| canon_file_entry(raw) == got) {
+        Ok(true)
+    } else {
+        Err(format!(
+            "the returned bytes of file {:?} are not the registered bytes minus the fields prost-types has no slot for (compared field by field at wire level, order of top-level fields ignored)",
+            fd.name
+        ))
+    }
+}
+fn not_found(a: &Ans) -> bool {
+    matches!(a, Ans::Err(5) | Ans::InMsgErr(5))
 }
 
 /// Direct check of the property on one version's answers.  `all` = user files plus (if included)
 /// the version's own descriptor files.  Order-agnostic: where two different files were registered
-/// under one file name the property does not say which one is "the" file, so either is accepted
-/// there (and only there).
+/// under one file name the property does not say which one is "the" file; the one the service
+/// itself returns for that file name is taken as the registered one and judged in full (all its
+/// names must resolve, symbols must resolve to it and not to the other content).
 fn oracle_version(
     label: &str,
     reg: &Registered,
@@ -680,7 +895,34 @@ fn oracle_version(
     if script.hung || per_query.iter().any(|s| s.hung) {
         return Some(format!("{label}: a stream hung"));
     }
+    // the content the service itself serves under each file name that was asked
+    let mut live: BTreeMap<String, FileDescriptorProto> = BTreeMap::new();
     for (q, so) in queries.iter().zip(per_query) {
+        if let (Q::File(n), Some(Ans::Fd(v))) = (q, so.answers.first()) {
+            if v.len() == 1 {
+                if let Ok(fd) = FileDescriptorProto::decode(&v[0][..]) {
+                    live.insert(n.clone(), fd);
+                }
+            }
+        }
+    }
+    // a registered file whose names must all resolve: its file name has one content only, or it is
+    // the content the service serves under that file name
+    let judged = |f: &FileDescriptorProto| {
+        f.name.as_ref().map_or(false, |n| by_name[n].len() == 1 || live.get(n) == Some(f))
+    };
+    for (f, d) in all.iter().zip(&decls) {
+        if judged(f) && !certain(f) {
+            notes.live_content_judged += 1;
+            if d.is_none() {
+                return Some(format!("{label}: file {:?} is served although one of its names is missing", f.name));
+            }
+        }
+    }
+    let is_message_type = |t: &str| {
+        decls.iter().flatten().any(|d| d.iter().any(|x| x.kind.ends_with("message") && same_type(&x.name, t)))
+    };
+    for (qi, (q, so)) in queries.iter().zip(per_query).enumerate() {
         if so.panicked {
             return Some(format!("{label}: server task panicked on {:?}", q));
         }
@@ -690,6 +932,17 @@ fn oracle_version(
         let a = &so.answers[0];
         if let Ans::Broken(why) = a {
             return Some(format!("{label}: {:?}: {}", q, why));
+        }
+        if let Ans::InMsgErr(_) = a {
+            notes.in_message_error_responses += 1;
+        }
+        // the envelope of a response message: the host and the request come back unchanged
+        if !matches!(a, Ans::Err(_)) {
+            let want = Echo { valid_host: qhost(qi).to_string(), original: Some((qhost(qi).to_string(), q.clone())) };
+            if so.echoes[0].as_ref() != Some(&want) {
+                return Some(format!("{label}: {:?} (host {:?}): response envelope is {:?}", q, qhost(qi), so.echoes[0]));
+            }
+            notes.envelopes_checked += 1;
         }
         match q {
             Q::Sym(s) => {
@@ -719,6 +972,10 @@ fn oracle_version(
                 if declaring.is_empty() && !ext_named.is_empty() {
                     if found { notes.extension_name_found += 1 } else { notes.extension_name_not_found += 1 }
                 }
+                if by_name.contains_key(s) && declaring.is_empty() {
+                    // a registered FILE NAME asked as a symbol (and nothing declares that name)
+                    if found { notes.file_name_asked_as_symbol_found += 1 } else { notes.file_name_asked_as_symbol_not_found += 1 }
+                }
                 match a {
                     Ans::Fd(v) if v.len() == 1 => {
                         let Ok(fd) = FileDescriptorProto::decode(&v[0][..]) else {
@@ -735,23 +992,42 @@ fn oracle_version(
                                 fd.name
                             ));
                         }
+                        // the file a name resolves to is the one retrievable under its own file name
+                        if let Some(l) = fd.name.as_ref().and_then(|n| live.get(n)) {
+                            if *l != fd {
+                                return Some(format!(
+                                    "{label}: symbol '{s}' resolved to a file named {:?} whose content is not the one served under that file name",
+                                    fd.name
+                                ));
+                            }
+                        }
+                        match returned_bytes_judgement(reg, &fd, &v[0]) {
+                            Err(e) => return Some(format!("{label}: symbol '{s}': {e}")),
+                            Ok(true) => notes.returned_bytes_checked_against_registered_bytes += 1,
+                            Ok(false) => {}
+                        }
                         let distinct: BTreeSet<usize> =
                             declaring.iter().map(|i| all.iter().position(|f| *f == all[*i]).unwrap()).collect();
                         if distinct.len() > 1 {
                             notes.duplicate_symbol_across_files += 1;
                         }
                     }
-                    Ans::Err(5) => {
-                        if let Some(i) = strict.iter().find(|i| certain(&all[**i])) {
+                    a if not_found(a) => {
+                        if let Some(i) = strict.iter().find(|i| judged(&all[**i])) {
                             return Some(format!(
                                 "{label}: declared symbol '{s}' of registered file {:?} is NOT_FOUND",
                                 all[*i].name
                             ));
                         }
-                        // an enum value must resolve under at least one of its two names
+                        // an enum value must resolve under at least one of its two names.  (What
+                        // resolves under the other name is checked where that name is asked: a
+                        // registered file declaring the NAME.  If another declaration has the same
+                        // name - say a message p.A next to the value p.E.A - that file need not
+                        // declare this very value; a stricter reading would have to fix one naming
+                        // scheme, so such cases are only counted.)
                         for (i, d) in decls.iter().enumerate() {
                             let Some(d) = d else { continue };
-                            if !certain(&all[i]) {
+                            if !judged(&all[i]) {
                                 continue;
                             }
                             for x in d.iter().filter(|x| x.kind == "enum value" && x.is(s)) {
@@ -761,7 +1037,18 @@ fn oracle_version(
                                     .iter()
                                     .zip(per_query)
                                     .find(|(q2, _)| **q2 == Q::Sym(other.clone()))
-                                    .map(|(_, so2)| matches!(so2.answers.first(), Some(Ans::Fd(_))));
+                                    .map(|(_, so2)| match so2.answers.first() {
+                                        Some(Ans::Fd(v2)) if v2.len() == 1 => {
+                                            let same_value = FileDescriptorProto::decode(&v2[0][..]).map_or(false, |fd2| {
+                                                declared(&fd2).map_or(false, |d2| d2.iter().any(|y| y.kind == "enum value" && y.name == x.name))
+                                            });
+                                            if !same_value {
+                                                notes.enum_value_other_name_resolved_to_a_clashing_declaration += 1;
+                                            }
+                                            true
+                                        }
+                                        _ => false,
+                                    });
                                 if other == *s || other_answer == Some(false) {
                                     return Some(format!(
                                         "{label}: enum value '{}' of registered file {:?} resolves neither as '{}' nor as '{}'",
@@ -777,27 +1064,38 @@ fn oracle_version(
                     other => return Some(format!("{label}: symbol '{s}' answered {:?}", other)),
                 }
             }
-            Q::File(n) => match (a, by_name.get(n)) {
-                (Ans::Fd(v), Some(cands)) if v.len() == 1 => {
-                    let Ok(fd) = FileDescriptorProto::decode(&v[0][..]) else {
-                        return Some(format!("{label}: descriptor returned for file '{n}' does not decode"));
-                    };
-                    if !cands.iter().any(|i| all[*i] == fd) {
-                        return Some(format!("{label}: file '{n}' does not decode to what was registered"));
-                    }
-                    if cands.len() > 1 {
-                        notes.shadowed_file_not_retrievable += 1;
-                    }
-                    // registered in encoded form with fields prost does not know: what comes back is
-                    // prost's reading of it, not the registered bytes
-                    if reg.raw.iter().any(|(f, raw)| *f == fd && *raw != v[0]) && !reg.raw.iter().any(|(f, raw)| *f == fd && *raw == v[0]) {
-                        notes.encoded_with_unknown_fields_returned_without_them += 1;
-                    }
+            Q::File(n) => {
+                if !by_name.contains_key(n) && decls.iter().flatten().any(|d| d.iter().any(|x| x.is(n))) {
+                    // a declared SYMBOL asked as a file name (and no file has that name)
+                    if matches!(a, Ans::Fd(_)) { notes.symbol_asked_as_file_name_found += 1 } else { notes.symbol_asked_as_file_name_not_found += 1 }
                 }
-                (Ans::Err(5), None) => {}
-                (other, Some(_)) => return Some(format!("{label}: registered file '{n}' answered {:?}", other)),
-                (other, None) => return Some(format!("{label}: unknown file '{n}' answered {:?}", other)),
-            },
+                match (a, by_name.get(n)) {
+                    (Ans::Fd(v), Some(cands)) if v.len() == 1 => {
+                        let Ok(fd) = FileDescriptorProto::decode(&v[0][..]) else {
+                            return Some(format!("{label}: descriptor returned for file '{n}' does not decode"));
+                        };
+                        if !cands.iter().any(|i| all[*i] == fd) {
+                            return Some(format!("{label}: file '{n}' does not decode to what was registered"));
+                        }
+                        if cands.len() > 1 {
+                            notes.shadowed_file_not_retrievable += 1;
+                        }
+                        match returned_bytes_judgement(reg, &fd, &v[0]) {
+                            Err(e) => return Some(format!("{label}: file '{n}': {e}")),
+                            Ok(true) => notes.returned_bytes_checked_against_registered_bytes += 1,
+                            Ok(false) => {}
+                        }
+                        // registered in encoded form with fields prost does not know: what comes back is
+                        // prost's reading of it, not the registered bytes
+                        if reg.raw.iter().any(|(f, raw)| *f == fd && *raw != v[0]) && !reg.raw.iter().any(|(f, raw)| *f == fd && *raw == v[0]) {
+                            notes.encoded_with_unknown_fields_returned_without_them += 1;
+                        }
+                    }
+                    (a, None) if not_found(a) => {}
+                    (other, Some(_)) => return Some(format!("{label}: registered file '{n}' answered {:?}", other)),
+                    (other, None) => return Some(format!("{label}: unknown file '{n}' answered {:?}", other)),
+                }
+            }
             Q::List(_) => {
                 let Ans::List(l) = a else {
                     return Some(format!("{label}: ListServices answered {:?}", a));
@@ -817,7 +1115,7 @@ fn oracle_version(
                                 continue; // the same content registered again declares nothing new
                             }
                             for s in declared_services(f) {
-                                if certain(f) {
+                                if judged(f) {
                                     *lower.entry(s.clone()).or_default() += 1;
                                 }
                                 *upper.entry(s).or_default() += 1;
@@ -845,7 +1143,7 @@ fn oracle_version(
                 let declaring: Vec<usize> =
                     (0..all.len()).filter(|i| exts[*i].iter().any(|x| same_type(&x.1, t) && x.2 == *n)).collect();
                 match a {
-                    Ans::Err(5) | Ans::Err(12) => {
+                    Ans::Err(5) | Ans::Err(12) | Ans::InMsgErr(5) | Ans::InMsgErr(12) => {
                         if declaring.is_empty() {
                             notes.undeclared_extension_lookup_not_found += 1
                         } else {
@@ -866,6 +1164,7 @@ fn oracle_version(
             Q::AllExt(t) => {
                 let numbers: BTreeSet<i32> =
                     exts.iter().flatten().filter(|x| same_type(&x.1, t)).map(|x| x.2).collect();
+                let unknown_type = numbers.is_empty() && !is_message_type(t);
                 match a {
                     Ans::AllExt { base, numbers: got } => {
                         if !(base.is_empty() || same_type(base, t)) {
@@ -880,8 +1179,16 @@ fn oracle_version(
                         if !got.is_empty() {
                             notes.all_extension_numbers_nonempty += 1;
                         }
+                        if unknown_type {
+                            // tonic#1077 workaround: OK with an empty list instead of NOT_FOUND
+                            notes.all_extension_numbers_unknown_type_ok_empty += 1;
+                        }
                     }
-                    Ans::Err(5) | Ans::Err(12) => {}
+                    Ans::Err(5) | Ans::Err(12) | Ans::InMsgErr(5) | Ans::InMsgErr(12) => {
+                        if unknown_type {
+                            notes.all_extension_numbers_unknown_type_not_found += 1;
+                        }
+                    }
                     other => return Some(format!("{label}: all-extension-numbers answered {:?}", other)),
                 }
             }
@@ -967,9 +1274,10 @@ fn oracle_script(label: &str, queries: &[Q], script: &[Sev], obs: &VerObs) -> Op
     let VerObs::Built { per_query, script: so } = obs else { return None };
     let single = |q: &Q| queries.iter().position(|x| x == q).map(|i| per_query[i].answers.clone());
     let mut expect: Vec<Ans> = vec![];
+    let mut expect_echo: Vec<Option<Echo>> = vec![];
     let mut dropped = false;
     let mut panic = false;
-    for ev in script {
+    for (j, ev) in script.iter().enumerate() {
         match ev {
             Sev::Drop => dropped = true,
             Sev::Bad => break,
@@ -984,6 +1292,11 @@ fn oracle_script(label: &str, queries: &[Q], script: &[Sev], obs: &VerObs) -> Op
                 }
                 let is_err = matches!(a[0], Ans::Err(_));
                 expect.push(a[0].clone());
+                expect_echo.push(if is_err {
+                    None
+                } else {
+                    Some(Echo { valid_host: shost(j).to_string(), original: Some((shost(j).to_string(), q.clone())) })
+                });
                 if is_err {
                     break;
                 }
@@ -992,6 +1305,9 @@ fn oracle_script(label: &str, queries: &[Q], script: &[Sev], obs: &VerObs) -> Op
     }
     if so.answers != expect {
         return Some(format!("{label}: scripted stream answered {:?}, single streams say {:?}", so.answers, expect));
+    }
+    if so.echoes != expect_echo {
+        return Some(format!("{label}: scripted stream: response envelopes {:?}, the requests were {:?}", so.echoes, expect_echo));
     }
     if so.panicked != panic {
         return Some(format!("{label}: scripted stream: server task panicked = {}, expected {}", so.panicked, panic));
@@ -1022,17 +1338,50 @@ const PACKAGES: &[Option<&str>] = &[
 ];
 const FILE_NAMES: &[&str] = &["a.proto", "b.proto", "x/c.proto", "d.proto", "e.proto", "f.proto", "", "x/y/g.proto"];
 
+/// what a generated case concentrates on (= its kind in the evidence)
+#[derive(Clone, Copy, PartialEq, Debug)]
+enum Mode {
+    General,
+    /// every set is registered encoded and carries fields prost-types does not know
+    UnknownFields,
+    /// bigger files, EVERY declared name is asked (no sampling)
+    AllNames,
+    /// file names that look like symbols and symbols that look like file names; every file name
+    /// is asked as a symbol and declared names are asked as file names
+    Namespace,
+    /// extension declarations everywhere, extension requests for all of them and for unknown types
+    Extensions,
+}
+impl Mode {
+    fn kind(self) -> &'static str {
+        match self {
+            Mode::General => "descriptor_set",
+            Mode::UnknownFields => "unknown_fields",
+            Mode::AllNames => "all_names",
+            Mode::Namespace => "namespace_collision",
+            Mode::Extensions => "extensions",
+        }
+    }
+}
+const NS_FILE_NAMES: &[&str] = &["p.M", "M", "p.q.M", "p.S", "S.Get", "p.q.M.f", "a.proto", "E.V", "p", "p.q"];
+
 struct G {
     r: Rng,
     miss: u64,
     exotic: bool,
     budget: i64,
+    big: bool,
+    ns: bool,
+    ext_boost: bool,
 }
 impl G {
     fn nm(&mut self, pool: &[&str]) -> Option<String> {
         self.budget -= 1;
         if self.miss > 0 && self.r.below(self.miss) == 0 {
             return None;
+        }
+        if self.ns && self.r.chance(1, 8) {
+            return Some("proto".to_string()); // with package "a": the symbol a.proto
         }
         if self.exotic && self.r.chance(1, 10) {
             return Some(self.r.pick(EXOTIC).to_string());
@@ -1162,7 +1511,7 @@ impl G {
         }
     }
     fn extensions(&mut self) -> Vec<FieldDescriptorProto> {
-        let n = if self.r.chance(1, 4) { self.r.range(1, 2) } else { 0 };
+        let n = if self.ext_boost { self.r.range(1, 3) } else if self.r.chance(1, 4) { self.r.range(1, 2) } else { 0 };
         (0..n)
             .map(|_| {
                 let name = if self.r.chance(1, 20) { None } else { Some(self.r.pick(&["ext1", "ext2", "f", "M"]).to_string()) };
@@ -1315,8 +1664,8 @@ impl G {
         }
     }
     fn file(&mut self, name: Option<String>) -> FileDescriptorProto {
-        self.budget = self.r.range(4, 28) as i64;
-        let package = self.r.pick(PACKAGES).map(|s| s.to_string());
+        self.budget = if self.big { self.r.range(30, 90) as i64 } else { self.r.range(4, 28) as i64 };
+        let package = if self.ns && self.r.chance(1, 4) { Some("a".to_string()) } else { self.r.pick(PACKAGES).map(|s| s.to_string()) };
         let n_m = self.r.below(4);
         let mut message_type: Vec<_> = (0..n_m).map(|_| self.msg(0)).collect();
         if self.r.chance(1, 10) {
@@ -1420,20 +1769,28 @@ fn mutate(r: &mut Rng, s: &str) -> String {
     }
 }
 
-fn gen_case(seed: u64, out: &mut Out) -> CaseIn {
+fn gen_case(seed: u64, out: &mut Out, focus: Mode) -> CaseIn {
     let mut r = Rng(seed);
     let mode = r.below(20);
-    let mut g = G { r: r.fork(), miss: if mode == 0 { 12 } else if mode == 1 { 40 } else { 0 }, exotic: mode == 2 || mode == 3, budget: 0 };
+    let mut g = G {
+        r: r.fork(),
+        miss: if mode == 0 { 12 } else if mode == 1 { 40 } else { 0 },
+        exotic: mode == 2 || mode == 3,
+        budget: 0,
+        big: focus == Mode::AllNames,
+        ns: focus == Mode::Namespace,
+        ext_boost: focus == Mode::Extensions,
+    };
     let nfiles = match r.below(10) {
-        0 => 0,
-        1 | 2 => 1,
+        0 if focus == Mode::General => 0,
+        0..=2 => 1,
         3..=5 => 2,
         6 | 7 => 3,
         8 => 4,
         _ => 5,
     };
     let mut files: Vec<FileDescriptorProto> = vec![];
-    let mut names: Vec<&str> = FILE_NAMES.to_vec();
+    let mut names: Vec<&str> = if focus == Mode::Namespace { NS_FILE_NAMES.to_vec() } else { FILE_NAMES.to_vec() };
     let mut dup_kind = "none";
     for i in 0..nfiles {
         if i > 0 && r.chance(1, 5) {
@@ -1479,7 +1836,7 @@ fn gen_case(seed: u64, out: &mut Out) -> CaseIn {
             return;
         }
         let s = FileDescriptorSet { file: std::mem::take(cur) };
-        match r.below(6) {
+        match if focus == Mode::UnknownFields { 5 } else { r.below(6) } {
             0..=2 => ops.push(Op::Set(s)),
             3 | 4 => ops.push(Op::Enc(s.encode_to_vec())),
             // encoded, carrying fields prost does not know (custom options, newer descriptor fields)
@@ -1549,7 +1906,9 @@ fn gen_case(seed: u64, out: &mut Out) -> CaseIn {
     // queries
     let mut seen = BTreeSet::new();
     decl.retain(|d| seen.insert(d.name.clone()));
-    while decl.len() > 48 {
+    let cap = if focus == Mode::AllNames { 2000 } else { 48 };
+    out.hist("declared_names_of_the_case", if decl.len() <= cap { "all asked" } else { "48 sampled" });
+    while decl.len() > cap {
         let k = r.below(decl.len() as u64) as usize;
         decl.swap_remove(k);
     }
@@ -1566,7 +1925,7 @@ fn gen_case(seed: u64, out: &mut Out) -> CaseIn {
         let n = r.pick(&decl).name.clone();
         queries.push(Q::Sym(mutate(&mut r, &n)));
     }
-    for x in exts.iter().take(3) {
+    for x in exts.iter().take(if focus == Mode::Extensions { 8 } else { 3 }) {
         queries.push(Q::Sym(x.0.clone())); // the fully-qualified name of an extension field
     }
     for u in ["", ".", "nope", "p", "p.q", "p.q.M.nope"] {
@@ -1592,13 +1951,22 @@ fn gen_case(seed: u64, out: &mut Out) -> CaseIn {
             queries.push(Q::File(mutate(&mut r, n)));
         }
     }
+    // the two name spaces must not leak into each other: file names asked as symbols, declared
+    // names asked as file names
+    let (n_fs, n_sf) = if focus == Mode::Namespace { (8, 12) } else { (2, 2) };
+    for n in fnames.iter().take(n_fs) {
+        queries.push(Q::Sym(n.clone()));
+    }
+    for _ in 0..n_sf.min(decl.len()) {
+        queries.push(Q::File(r.pick(&decl).name.clone()));
+    }
     for u in ["nope.proto", "reflection_v1.proto", "reflection_v1alpha.proto", "a.proto", ""] {
         if r.chance(1, 2) {
             queries.push(Q::File(u.to_string()));
         }
     }
     queries.push(Q::List(r.pick(&["", "*", "x"]).to_string()));
-    if r.chance(1, 2) {
+    if focus == Mode::Extensions || r.chance(1, 2) {
         // extension requests: declared (extendee, number) pairs with and without the leading dot,
         // declared message names, unknown types, boundary numbers
         let msgs: Vec<String> = decl.iter().filter(|d| d.kind.ends_with("message")).map(|d| d.name.clone()).collect();
@@ -1607,7 +1975,7 @@ fn gen_case(seed: u64, out: &mut Out) -> CaseIn {
         types.extend(exts.iter().map(|x| x.1.clone()));
         types.extend(exts.iter().map(|x| x.1.trim_start_matches('.').to_string()));
         let numbers = [0, 1, 7, 100, 101, 102, 103, -1, i32::MAX, i32::MIN];
-        for x in exts.iter().take(3) {
+        for x in exts.iter().take(if focus == Mode::Extensions { 8 } else { 3 }) {
             queries.push(Q::Ext(x.1.clone(), x.2));
             queries.push(Q::Ext(x.1.trim_start_matches('.').to_string(), x.2));
             queries.push(Q::AllExt(x.1.clone()));
@@ -1872,6 +2240,51 @@ fn corpus() -> Vec<CaseIn> {
         },
         script: vec![],
     });
+    // the two name spaces: a FILE named like a symbol (p.q.M) that does not declare it, the symbol
+    // p.q.M declared by another file, a SYMBOL spelled like a file name (package a, message proto)
+    let mut n1 = fd("p.q.M", Some("p.q"), 8);
+    n1.message_type.push(m("X"));
+    let mut n2 = fd("x.proto", Some("p.q"), 9);
+    n2.message_type.push(m("M"));
+    let mut n3 = fd("y.proto", Some("a"), 10);
+    n3.message_type.push(m("proto"));
+    v.push(CaseIn {
+        ops: vec![Op::Set(FileDescriptorSet { file: vec![n1, n2] }), Op::Enc(FileDescriptorSet { file: vec![n3] }.encode_to_vec()), Op::Include(false)],
+        queries: {
+            let mut q = syms(&["p.q.M", "p.q.X", "x.proto", "y.proto", "a.proto"]);
+            q.extend([
+                Q::File("p.q.M".into()),
+                Q::File("x.proto".into()),
+                Q::File("p.q.X".into()),
+                Q::File("a.proto".into()),
+                Q::File("y.proto".into()),
+                Q::List(String::new()),
+            ]);
+            q
+        },
+        script: vec![Sev::Req(Q::Sym("x.proto".into())), Sev::Req(Q::List(String::new()))],
+    });
+    // an enum value whose protobuf-scoped name (p.A) is also the name of a message of ANOTHER file:
+    // p.A must resolve to the message's file, p.E.A to the enum's file
+    let mut v1 = fd("v1.proto", Some("p"), 11);
+    v1.enum_type.push(en("E", &["A"]));
+    let mut v2 = fd("v2.proto", Some("p"), 12);
+    v2.message_type.push(m("A"));
+    v.push(CaseIn {
+        ops: vec![Op::Set(FileDescriptorSet { file: vec![v1, v2] }), Op::Include(false)],
+        queries: {
+            let mut q = syms(&["p.E.A", "p.A", "p.E", "p.E.B"]);
+            q.extend([Q::File("v1.proto".into()), Q::File("v2.proto".into()), Q::AllExt("p.A".into()), Q::AllExt("p.Nope".into()), Q::AllExt("".into())]);
+            q
+        },
+        script: vec![
+            Sev::Req(Q::Sym("p.E.A".into())),
+            Sev::Req(Q::AllExt("p.Nope".into())),
+            Sev::Req(Q::File("v2.proto".into())),
+            Sev::Req(Q::Ext("p.A".into(), 1)),
+            Sev::Req(Q::List(String::new())),
+        ],
+    });
     v
 }
 
@@ -1902,8 +2315,8 @@ fn run_case(rt: &tokio::runtime::Runtime, out: &mut Out, kind: &str, c: CaseIn, 
     let model = format!(
         "obs_case own_v1 own_v1alpha {} {} {}",
         coq_list(&c.ops, coq_op),
-        coq_list(&c.queries, coq_q),
-        coq_list(&c.script, coq_sev)
+        coq_indexed(&c.queries, |i, q| format!("({}, {})", coq_name(qhost(i)), coq_q(q))),
+        coq_indexed(&c.script, coq_sev)
     );
     let built = matches!(o1, VerObs::Built { .. });
     out.hist("build", if built { "ok".to_string() } else { format!("{:?}", o1).chars().take(70).collect() });
@@ -1989,26 +2402,83 @@ fn main() {
         let input = json!({"case": id, "descr": describe(&c)});
         run_case(&rt, &mut out, "corpus.descriptor_set", c, input, &mut notes);
     }
-    let n = if a.thorough { 8000 } else { 1500 } * a.scale;
     let mut r = Rng::new(a.seed);
-    for _ in 0..n {
+    let plan: &[(Mode, u64, u64)] = &[
+        // (focus, quick, thorough)
+        (Mode::General, 1000, 5000),
+        (Mode::UnknownFields, 150, 800),
+        (Mode::AllNames, 100, 500),
+        (Mode::Namespace, 150, 800),
+        (Mode::Extensions, 150, 800),
+    ];
+    for (focus, quick, thorough) in plan {
+        let n = if a.thorough { *thorough } else { *quick } * a.scale;
+        for _ in 0..n {
+            let seed = r.next();
+            let id = json!({"seed": seed.to_string(), "focus": focus.kind()});
+            if want.as_ref().map_or(false, |w| *w != id) {
+                continue;
+            }
+            let c = gen_case(seed, &mut out, *focus);
+            let input = json!({"case": id, "descr": describe(&c)});
+            run_case(&rt, &mut out, focus.kind(), c, input, &mut notes);
+        }
+    }
+    // the oracle's own reading of "the names a file declares" against the Coq relation [declares]
+    // (as the list declared_names): the theorems and the oracle must talk about the same set
+    let n_spec = if a.thorough { 1500 } else { 300 } * a.scale;
+    for _ in 0..n_spec {
         let seed = r.next();
-        let id = json!({"seed": seed.to_string()});
+        let id = json!({"spec": seed.to_string()});
         if want.as_ref().map_or(false, |w| *w != id) {
             continue;
         }
-        let c = gen_case(seed, &mut out);
-        let input = json!({"case": id, "descr": describe(&c)});
-        run_case(&rt, &mut out, "descriptor_set", c, input, &mut notes);
+        let mut r2 = Rng(seed);
+        let mode = r2.below(10);
+        let mut g = G { r: r2.fork(), miss: 0, exotic: mode < 3, budget: 0, big: mode == 9, ns: mode == 8, ext_boost: false };
+        let f = g.file(Some("s.proto".to_string()));
+        let names: Vec<String> = declared(&f).expect("no name is missing").into_iter().map(|d| d.name).collect();
+        out.push(Case {
+            kind: "spec.declared_names".into(),
+            input: json!({"case": id, "file": hex(&f.encode_to_vec())}),
+            model: format!("obs_declared {} {}", coq_file(&f), coq_list(&names, |n| coq_name(n))),
+            impl_obs: Tr::L(vec![Tr::n(1u8), Tr::n(1u8), Tr::n(names.len() as u64)]),
+            oracle: None,
+            nontrivial: names.len() >= 3,
+        });
+    }
+    // the strict oracle clauses must actually have been exercised by this run (a generator that
+    // stops producing the inputs they need would otherwise pass silently)
+    if want.is_none() {
+        let floors: &[(&str, u64, u64)] = &[
+            ("response envelopes checked", notes.envelopes_checked, 20000),
+            ("returned bytes compared with registered bytes", notes.returned_bytes_checked_against_registered_bytes, 10000),
+            ("file names asked as symbols", notes.file_name_asked_as_symbol_found + notes.file_name_asked_as_symbol_not_found, 1000),
+            ("declared symbols asked as file names", notes.symbol_asked_as_file_name_found + notes.symbol_asked_as_file_name_not_found, 1500),
+            ("files judged in full under a file name with two contents", notes.live_content_judged, 50),
+            ("enum values resolved under one of their names", notes.enum_value_scoped_found + notes.enum_value_sibling_found, 4000),
+            ("extension lookups of declared extensions", notes.declared_extension_lookup_found + notes.declared_extension_lookup_not_found, 1200),
+            ("all-extension-numbers requests for unknown types", notes.all_extension_numbers_unknown_type_ok_empty + notes.all_extension_numbers_unknown_type_not_found, 200),
+        ];
+        let short: Vec<String> = floors.iter().filter(|f| f.1 < f.2).map(|f| format!("{}: {} < {}", f.0, f.1, f.2)).collect();
+        out.push(Case {
+            kind: "summary.strict_clauses_exercised".into(),
+            input: json!({"case": {"summary": true}, "counts": floors.iter().map(|f| json!({"what": f.0, "count": f.1, "floor": f.2})).collect::<Vec<_>>()}),
+            model: "Nd [Nn 1]".into(),
+            impl_obs: Tr::L(vec![Tr::n(1u8)]),
+            oracle: if short.is_empty() { None } else { Some(format!("strict oracle clauses were not exercised often enough by this run: {}", short.join("; "))) },
+            nontrivial: false,
+        });
     }
     out.finish(
         &imports,
-        "one case = one random descriptor set (0-5 files; package absent/empty/single/nested; messages nested to depth 4 with fields, oneofs, enums and values; services with methods; every other field of File/Descriptor/Field/Enum/EnumValue/Oneof/Service/Method descriptors filled at random (options with uninterpreted options, source_code_info, extensions, extension and reserved ranges/names, public/weak dependencies, json_name, default_value, ...) and tied as a digest of the full encoding; encoded sets with unknown fields; the same file registered twice; two files under one name; the same symbol in several files; sometimes a missing name or an undecodable set) registered through register_file_descriptor_set / register_encoded_file_descriptor_set / with_service_name / include_reflection_service in random call order, then build_v1 and build_v1alpha each asked (generated clients, in-process) for every declared name, mutated and unknown names, every file name, ListServices, randomised extension requests, every enum value under both naming schemes, plus one scripted multi-request stream (malformed request, client drops the response stream). Non-trivial = at least 3 descriptors returned. Distinct = distinct (kind, model expression).",
+        "kinds: descriptor_set = one random descriptor set (0-5 files; package absent/empty/single/nested; messages nested to depth 4 with fields, oneofs, enums and values; services with methods; every other field of File/Descriptor/Field/Enum/EnumValue/Oneof/Service/Method descriptors filled at random (options with uninterpreted options, source_code_info, extensions, extension and reserved ranges/names, public/weak dependencies, json_name, default_value, ...) and tied as a digest of the full encoding; encoded sets with unknown fields; the same file registered twice; two files under one name; the same symbol in several files; sometimes a missing name or an undecodable set) registered through register_file_descriptor_set / register_encoded_file_descriptor_set / with_service_name / include_reflection_service in random call order, then build_v1 and build_v1alpha each asked (generated clients, in-process, one stream per request, request hosts varied) for the declared names (all of them if at most 48, else a sample of 48), mutated and unknown names, every file name, file names as symbols and declared names as file names, ListServices, extension requests, every asked enum value under both naming schemes, plus one scripted multi-request stream through a raw-payload client (malformed request, client drops the response stream); all_names = the same with bigger files and EVERY declared name asked; unknown_fields = every set registered encoded with fields prost-types has no slot for; namespace_collision = file names that are spelled like symbols and symbols spelled like file names; extensions = extension declarations in every scope, requests for each declared (extendee, number), for declared messages without extensions and for unknown types; spec.declared_names = the oracle's own list of the names a random file declares against the Coq list declared_names (= the relation declares of the theorems). Non-trivial = at least 3 descriptors returned (spec: at least 3 names). Distinct = distinct (kind, model expression).",
         json!({
             "oracle_naming_schemes": "every name is scope + '.' + name (no dot after an empty package). Enum values: the oracle accepts BOTH protobuf's own fully-qualified name pkg.VALUE (sibling of the enum) and the enum-scoped pkg.Enum.VALUE; each value must resolve under at least one of the two, and whatever resolves must be a registered file declaring that value. The counts below show which scheme the implementation serves.",
             "enum_value_lookups": {
                 "scoped_by_enum(pkg.Enum.VALUE)": {"found": notes.enum_value_scoped_found, "NOT_FOUND": notes.enum_value_scoped_not_found},
                 "protobuf_scoping(pkg.VALUE)": {"found": notes.enum_value_sibling_found, "NOT_FOUND": notes.enum_value_sibling_not_found},
+                "one_name_NOT_FOUND_and_the_other_resolved_to_a_file_that_declares_the_name_but_not_this_value(name clash across files)": notes.enum_value_other_name_resolved_to_a_clashing_declaration,
             },
             "extension_lookups": {
                 "oracle": "the property does not ask for extension lookups: NOT_FOUND/UNIMPLEMENTED or a correct answer are accepted, a wrong file or an undeclared number is not",
@@ -2016,7 +2486,18 @@ fn main() {
                 "file_containing_extension_undeclared_NOT_FOUND": notes.undeclared_extension_lookup_not_found,
                 "all_extension_numbers_empty_although_declared": notes.all_extension_numbers_declared_but_empty,
                 "all_extension_numbers_nonempty": notes.all_extension_numbers_nonempty,
+                "all_extension_numbers_of_a_type_no_registered_file_declares": {"OK_with_empty_list(tonic#1077 workaround)": notes.all_extension_numbers_unknown_type_ok_empty, "NOT_FOUND": notes.all_extension_numbers_unknown_type_not_found},
                 "extension_field_name_as_symbol": {"found": notes.extension_name_found, "NOT_FOUND": notes.extension_name_not_found},
+            },
+            "name_space_probes": {
+                "registered_file_name_asked_as_symbol(nothing declares that name)": {"found": notes.file_name_asked_as_symbol_found, "NOT_FOUND": notes.file_name_asked_as_symbol_not_found},
+                "declared_symbol_asked_as_file_name(no file has that name)": {"found": notes.symbol_asked_as_file_name_found, "NOT_FOUND": notes.symbol_asked_as_file_name_not_found},
+            },
+            "strict_clauses_exercised": {
+                "response_envelopes_checked(valid_host, original_request)": notes.envelopes_checked,
+                "returned_bytes_compared_at_wire_level_with_the_registered_bytes": notes.returned_bytes_checked_against_registered_bytes,
+                "files_judged_in_full_because_the_service_serves_them_under_a_file_name_with_two_contents": notes.live_content_judged,
+                "in_message_ErrorResponse_seen": notes.in_message_error_responses,
             },
             "observations": {
             "file_registered_encoded_with_unknown_fields_is_returned_without_them(prost decode is what is registered)": notes.encoded_with_unknown_fields_returned_without_them,
